@@ -152,4 +152,23 @@ let () =
         f := x_apply s !f (x_diff ko s states.(k - 1) states.(k));
         Printf.printf "%s H%d %s\n" id k (show_val ps !f)
       done
+    | "SET" ->
+      let id = toks.(1) in let (ko, s, ps) = Hashtbl.find shapes toks.(2) in
+      let i = ref 3 in
+      expect toks i "X"; let x0 = parse_val toks i in
+      expect toks i "OPS";
+      (match s, x0 with
+       | SStruct fs, VStruct xs0 ->
+         let xs = ref xs0 and es = ref [] and k = ref 0 in
+         while !i < Array.length toks do
+           let fi = int_of_string toks.(!i) in incr i;
+           let v = parse_val toks i in
+           let (xs', e) = x_setter ko fs !xs (nat_of_int fi) v in
+           xs := xs'; es := !es @ e;
+           Printf.printf "%s E%d %s\n" id !k (match e with [] -> "-" | e1 :: _ -> show_entry ps e1);
+           Printf.printf "%s V%d %s\n" id !k (show_val ps (VStruct !xs));
+           incr k
+         done;
+         Printf.printf "%s REPLAY %s\n" id (show_val ps (x_apply s x0 !es))
+       | _ -> ())
     | _ -> ())
